@@ -889,11 +889,17 @@ func checkDumpReaderFields(c *Ctx, rd *ssa.Function) {
 		// the loop's own and "no decode error" (errors return); no entry is skipped silently
 		extra := ""
 		hdr := innermostLoopHeader(storeCall.Block())
+		inHelper := false
+		if hdr == nil {
+			if hdr = helperLoopHeader(storeCall); hdr != nil {
+				inHelper = true // the loop body lives in a new helper: every condition of the helper is inside the loop
+			}
+		}
 		if hdr == nil {
 			c.undecided("store-every-entry", instrPos(storeCall), "the store is not inside an entry loop")
 		}
 		for _, g := range guardsOfInstr(storeCall) {
-			if hdr == nil || !hdr.Dominates(g.If.Block()) {
+			if hdr == nil || (!inHelper && !hdr.Dominates(g.If.Block())) {
 				continue // conditions in front of the loop (block header checks)
 			}
 			if cm, ok := g.asCmp(); ok {
@@ -920,6 +926,9 @@ func checkDumpReaderFields(c *Ctx, rd *ssa.Function) {
 						continue
 					}
 				}
+			}
+			if g.Derived {
+				continue
 			}
 			extra = guardText(g)
 		}
@@ -951,7 +960,6 @@ func checkDumpReaderFields(c *Ctx, rd *ssa.Function) {
 			"decoded entries are stored only under "+extra+": live entries of an intact dump are dropped on reload without an error")
 	}
 }
-
 
 // checkDumpWriterPairing: what the dump writer puts into an entry is that cache entry's own pair: Key = the bytes of
 // the range callback's key parameter, Msg = item.resp.Pack() — a fresh slice per entry. (Packing into a buffer
@@ -1003,13 +1011,15 @@ func checkDumpWriterPairing(c *Ctx) {
 	}
 }
 
-
 // unpackErrorSkipsEntry: the error result of this Unpack call is tested, and on the error edge no backend Store (and
 // no use of the message) is reachable before the loop goes on to the next entry.
 func unpackErrorSkipsEntry(ci *ssa.Call) bool {
 	hdr := innermostLoopHeader(ci.Block())
 	if hdr == nil {
-		return false
+		// loop body extracted into a new result-less helper: leaving the helper is going on with the next entry
+		if helperLoopHeader(ci) == nil || ci.Parent().Signature.Results().Len() != 0 {
+			return false
+		}
 	}
 	found := false
 	for _, r := range referrers(ci) {
@@ -1027,7 +1037,7 @@ func unpackErrorSkipsEntry(ci *ssa.Call) bool {
 			if _, stores := reachFromBlock(errBlk, func(x ssa.Instruction) bool {
 				cl, ok := x.(*ssa.Call)
 				return ok && callName(cl) == "(*pkg/cache.Cache).Store"
-			}, func(x ssa.Instruction) bool { return x.Block() == hdr }); stores {
+			}, func(x ssa.Instruction) bool { return hdr != nil && x.Block() == hdr }); stores {
 				return false
 			}
 		}
